@@ -397,7 +397,7 @@ func rootIsCiphertextCopy(p *an.Prog, dec *ssa.Function, x ssa.Value) bool {
 
 func init() {
 	register(&Def{ID: "C12", Run: c12,
-		Explain:     "Decides on SSA: (R1) DecryptWithEd25519 returns plaintext only past {len(key)==64, len(ciphertext)>=36, AES key ok, both Ed→Curve conversions valid, X25519 keys/ECDH ok, AEAD.Open ok, s2.Decode ok, ConstantTimeCompare(expected message key, received message key)!=0} and what it returns is s2.Decode of what Open authenticated; (MIRROR) encrypt and decrypt derive keys under the same three constant prefixes each concatenated with the caller's context, feed each KDF operands of mirrored roles, take the nonce from the nonce KDF, use the per-message public key as associated data, and split the ciphertext at offset 36; the PubKey/PrivKey wrappers forward context and data; (PANIC) every compiler-unproven bounds check, unchecked assertion and length-preconditioned crypto call (ed25519 Public/NewKeyFromSeed, AEAD nonce, AES block) in these functions is discharged by a path guard, a fixed-length producer or a reviewed reason. (NILDEREF) (pointer, error) results in the encrypt/decrypt path and util/extra25519 are dereferenced only behind err==nil; (LENGUARD) the too-short rejection only covers lengths below header+tag+s2 frame (53), the shortest genuine ciphertext.",
+		Explain:     "Decides on SSA: (R1) DecryptWithEd25519 returns plaintext only past {len(key)==64, len(ciphertext)>=36, AES key ok, both Ed→Curve conversions valid, X25519 keys/ECDH ok, AEAD.Open ok, s2.Decode ok, ConstantTimeCompare(expected message key, received message key)!=0} and what it returns is s2.Decode of what Open authenticated; (MIRROR) encrypt and decrypt derive keys under the same three constant prefixes each concatenated with the caller's context, feed each KDF operands of mirrored roles, take the nonce from the nonce KDF, use the per-message public key as associated data, and split the ciphertext at offset 36; the PubKey/PrivKey wrappers forward context and data; (PANIC) every compiler-unproven bounds check, unchecked assertion and length-preconditioned crypto call (ed25519 Public/NewKeyFromSeed, AEAD nonce, AES block) in these functions is discharged by a path guard, a fixed-length producer or a reviewed reason. (NILDEREF) (pointer, error) results in the encrypt/decrypt path and util/extra25519 are dereferenced only behind err==nil; (LENGUARD) the too-short rejection only covers lengths below header+tag+s2 frame (53), the shortest genuine ciphertext. (OWNERSHIP) DecryptWithEd25519 never writes through its ciphertext parameter; (ORDER) no secret buffer is read after it was wiped; classifier and private-key decode gates shared.",
 		NotCov:      "round-trip equality and wrong-key/context rejection as values (they follow from the mirror under the trusted AEAD/KDF); s2/AEAD internals.",
 		Assumptions: commonAssumptions})
 }
